@@ -13,6 +13,12 @@ CLAIMED = {
          "decides the structural clauses C03-PAIR/SCRATCH/INIT (every hashed-state mutation paired with its key toggle, from-scratch hash and toggles read the same component families, init-only writers), not distinctness of the generated words"),
  "C05": ("typestate abstract interpretation of UciCommand arms + lock-order graph",
          "decides the clauses C05-TS/SET/LOCK/NOBLOCK (no reachable latch wait without a pending set, set-after-bestmove, acyclic lock order, non-blocking arms) assuming the search terminates; not that each go is answered at its limit"),
+ "C12": ("effect analysis over the search call-graph cone, reset-covers-writes field sets, forward slice of clock reads, static-mut writer sets",
+         "decides the clauses C12-EFFECT/RESET/PERSEARCH/STATICS/SEED (no nondeterminism source influences a depth-limited search, reset covers every field the search writes, per-search tables, init-only statics, constant seed), not equality of two actual runs"),
+ "C13": ("guard dominance for zero-length division, advertise/handle set agreement, constant range relations",
+         "decides the clauses C13-ZERO/ADV/RANGE/NOLOCK (no unguarded division by the table length, advertised == handled options, min<=default<=max and overflow-free size arithmetic, try_lock only), not that a search after each setting completes"),
+ "C14": ("flow-sensitive dataflow to min/cap shape with evaluated constants, per-arm comparison extraction, token-to-clock wiring tables",
+         "decides the limit clauses C14-CAP/EXACT/USE/WIRE (hard <= half of remaining after overhead, soft <= hard, movetime unchanged, correct limit polled, tokens wired to the matching colour's clock); the wall-clock clause is not decided (timing is outside static reach)"),
  "C15": ("sibling agreement of incremental and from-scratch term lists, who-may-write",
          "decides the structural clauses C15-PAIR/INV/SAME/WRITERS (edit/accumulator pairing, inverse updates, same term functions over all squares, writers), not numeric equality as such"),
  "C19": ("guard dominance on probe/store, index provenance, decision-table enumeration of the replacement predicate",
